@@ -174,60 +174,103 @@ def rule_scaler(ctx: Ctx) -> List[Ob]:
             for t in tg:
                 if isinstance(t, ast.Attribute) and t.attr == "scaling_factor":
                     writes.append((f, s))
-    okw = len(writes) == 1 and isinstance(writes[0][1], ast.Assign) and isinstance(writes[0][1].value, ast.Call) and \
-        isinstance(writes[0][1].value.func, ast.Name) and writes[0][1].value.func.id == "gradient_scaler"
-    obs.append(ob("SCALER", "the scaler's result is the only write of the factor outside the wrapper", writes[0][0] if writes else mm.f,
-                  writes[0][1] if writes else mm.f.node, okw, f"{len(writes)} write(s): {[short(s) for _, s in writes]}",
+    def kind(st):
+        v = st.value if isinstance(st, ast.Assign) else None
+        if isinstance(v, ast.Call) and isinstance(v.func, ast.Name) and v.func.id == "gradient_scaler":
+            return "scaler"
+        if v is not None and any(isinstance(x, ast.Name) and x.id == "checkpoint" for x in ast.walk(v)):
+            return "restore"
+        return "other"
+    kinds = sorted(kind(st) for _, st in writes)
+    okw = kinds in (["scaler"], ["restore", "scaler"])
+    obs.append(ob("SCALER", "the factor is written outside the wrapper only by the scaler call and by the restore from a checkpoint",
+                  writes[0][0] if writes else mm.f, writes[0][1] if writes else mm.f.node, okw,
+                  f"{len(writes)} write(s): {[short(s) for _, s in writes]} -> {kinds}",
                   construct="writes of sf.scaling_factor outside ScalarFunction"))
     return obs
 
 
-RAW, SCALED, MIXED, DOUBLE = "RAW", "SCALED", "MIXED", "DOUBLE"
+RAW, MIXED, DOUBLE = "RAW", "MIXED", "DOUBLE"
+ONE, SC, CK = "1", "scaler", "checkpoint"      # what the wrapper's factor currently is
 
 
-@rule("UNITS", min_instances=6)
+def S(tag: str) -> str:
+    return f"SCALED[{tag}]"
+
+
+def _is_ckpt_atom(t: ast.AST) -> Optional[bool]:
+    """`checkpoint is None` -> True, `checkpoint is not None` -> False, else None"""
+    if isinstance(t, ast.Compare) and len(t.ops) == 1 and isinstance(t.left, ast.Name) and t.left.id == "checkpoint" and \
+            isinstance(t.comparators[0], ast.Constant) and t.comparators[0].value is None:
+        if isinstance(t.ops[0], ast.Is):
+            return True
+        if isinstance(t.ops[0], ast.IsNot):
+            return False
+    return None
+
+
+@rule("UNITS", min_instances=8)
 def rule_units(ctx: Ctx) -> List[Ob]:
-    """scaled and unscaled quantities are never mixed: the target stop is tested on the unscaled
-    value (scaled / factor), the relative-change test compares two values in the same unit, fun and
-    jac are scaled exactly once before the loop, and what results and the line search receive is
-    scaled"""
+    """scaled and unscaled quantities are never mixed, in a fresh run and in a restart alike.  Values carry the
+    unit RAW or SCALED[by which factor]; the wrapper's factor is 1 until it is written, then `scaler` (result of the
+    gradient scaler) or `checkpoint` (restored from the checkpoint).  Writer/reader agreement: every result stores
+    fun and jac after the scaling, so checkpoint.fun / checkpoint.jac are SCALED[checkpoint].  Decided separately
+    on the paths with and without a checkpoint (edges contradicting the mode are pruned):  the target stop is
+    tested on an unscaled value, the relative-change test compares like units, fun and jac are scaled exactly once
+    from unscaled values, the scaler receives an unscaled gradient, and what results and the line search receive is
+    scaled by the wrapper's current factor"""
     mm = mainmodel(ctx)
     cfg = mm.cfg
     sf = mm.sf
     fin = mm.result_of_return(mm.final_return)
     fn_, gn = src(kw(fin, "fun")), src(kw(fin, "jac"))
     fac = f"{sf}.scaling_factor"
-    # phase: nodes after the factor may have been set
-    setters = [n for n in cfg.nodes if any(k == fac for k, _, _ in node_defs(n))]
-    need(len(setters) >= 1, "UNITS: no assignment of the scaling factor in minimize_lbfgsb")
-    scal_if = sorted(setters, key=lambda n: n.line)[0]   # SCALER reports any further write
-    post: Set[Node] = cfg.reachable(scal_if, follow_exc=False)
+    FAC = "$factor"
+    MODE: List[bool] = []      # [True] while analysing the paths without a checkpoint, [False] with one
 
     def times_factor(v: Optional[ast.expr], name: str) -> bool:
         return isinstance(v, ast.BinOp) and isinstance(v.op, ast.Mult) and {src(v.left), src(v.right)} == {name, fac}
 
-    def unit_of(e: ast.expr, st, n: Node) -> str:
+    def cur(st) -> str:
+        return st.get(FAC, ONE)
+
+    def scaled_now(st) -> str:
+        return RAW if cur(st) == ONE else S(cur(st))
+
+    def unit_of(e: ast.expr, st) -> str:
         e = uncopy(e)
         if isinstance(e, ast.IfExp):
-            a, b = unit_of(e.body, st, n), unit_of(e.orelse, st, n)
+            t, neg = e.test, False
+            while isinstance(t, ast.UnaryOp) and isinstance(t.op, ast.Not):
+                t, neg = t.operand, not neg
+            at = _is_ckpt_atom(t)
+            if at is not None and MODE:
+                holds = (at == MODE[0]) != neg        # truth of the test on the paths of this mode
+                return unit_of(e.body if holds else e.orelse, st)
+            a, b = unit_of(e.body, st), unit_of(e.orelse, st)
             return a if a == b else MIXED
         if isinstance(e, ast.Call) and (dotted(e.func) or "") in (f"{sf}.fun", f"{sf}.grad"):
-            return SCALED if n in post else RAW
+            return scaled_now(st)
         if isinstance(e, ast.Attribute) and src(e).startswith("checkpoint."):
-            return RAW
+            return S(CK) if e.attr in ("fun", "jac") else RAW
         if isinstance(e, ast.Name):
-            return st.get(e.id, RAW if n not in post else "?")
+            return st.get(e.id, "?")
         if isinstance(e, ast.BinOp) and isinstance(e.op, ast.Div) and src(e.right) == fac:
-            u = unit_of(e.left, st, n)
-            if u == SCALED:
+            u = unit_of(e.left, st)
+            if u == S(cur(st)) or (u == RAW and cur(st) == ONE):
                 return RAW
-            if u == RAW and n not in post:
-                return RAW      # the factor is still its initial 1.0
             return MIXED
         if isinstance(e, ast.BinOp) and isinstance(e.op, ast.Mult) and fac in (src(e.left), src(e.right)):
             other = e.left if src(e.right) == fac else e.right
-            u = unit_of(other, st, n)
-            return SCALED if u == RAW else DOUBLE
+            u = unit_of(other, st)
+            return scaled_now(st) if u == RAW else DOUBLE
+        return "?"
+
+    def fac_source(v: Optional[ast.expr]) -> str:
+        if isinstance(v, ast.Call) and isinstance(v.func, ast.Name) and v.func.id == "gradient_scaler":
+            return SC
+        if v is not None and any(isinstance(x, ast.Name) and x.id == "checkpoint" for x in ast.walk(v)):
+            return CK
         return "?"
 
     def transfer(n: Node, st):
@@ -237,30 +280,35 @@ def rule_units(ctx: Ctx) -> List[Ob]:
         out = dict(st)
         s = n.ast
         for k, v, how in defs:
+            if k == fac:
+                out[FAC] = fac_source(v)
+                continue
             if "." in k:
                 continue
             if how == "aug":
                 if isinstance(s, ast.AugAssign) and isinstance(s.op, ast.Mult) and src(s.value) == fac:
-                    out[k] = SCALED if st.get(k) == RAW else DOUBLE
+                    # the unit of what is being scaled is reported at the statement (obligation below); afterwards
+                    # the value counts as scaled so that one cause gives one report
+                    out[k] = scaled_now(st) if not n.loops else DOUBLE
                 elif isinstance(s, ast.AugAssign) and isinstance(s.op, ast.Div) and src(s.value) == fac:
-                    out[k] = RAW if st.get(k) == SCALED else MIXED
+                    out[k] = RAW if st.get(k) in (S(cur(st)), RAW) else MIXED
                 continue
             if v is None:
                 out.pop(k, None)
                 continue
             if isinstance(v, ast.Call) and (dotted(v.func) or "") in (f"{sf}.fun", f"{sf}.grad", f"{sf}.fun_and_grad"):
-                out[k] = SCALED if n in post else RAW
-            elif src(v).startswith("checkpoint."):
-                out[k] = RAW
+                out[k] = scaled_now(st)
             elif isinstance(v, ast.Call) and isinstance(v.func, ast.Name) and v.func.id == "update_fun_def":
                 # documented: the update function returns values in the unit it was given
                 tg = s.targets[0] if isinstance(s, ast.Assign) else None
                 idx = [src(e) for e in tg.elts].index(k) if isinstance(tg, ast.Tuple) and k in [src(e) for e in tg.elts] else None
                 if idx is not None and idx < 3:
                     arg = v.args[1] if len(v.args) > 1 else None   # unit of f0 argument
-                    out[k] = unit_of(arg, st, n) if arg is not None else "?"
+                    out[k] = unit_of(arg, st) if arg is not None else "?"
             else:
-                u = unit_of(v, st, n)
+                u = unit_of(v, st)
+                if times_factor(v, k) and not n.loops:
+                    u = scaled_now(st)
                 if u != "?":
                     out[k] = u
                 else:
@@ -272,52 +320,95 @@ def rule_units(ctx: Ctx) -> List[Ob]:
             return a
         out = {}
         for k in set(a) | set(b):
+            if k == FAC:
+                x, y = a.get(FAC, ONE), b.get(FAC, ONE)
+                # a factor of 1 is a special case of any factor: RAW values are upgraded below
+                out[FAC] = x if x == y else (y if x == ONE else x if y == ONE else MIXED)
+                continue
             if k in a and k in b:
                 out[k] = a[k] if a[k] == b[k] else MIXED
             else:
                 out[k] = MIXED
+        # RAW on the branch where the factor is still 1 is SCALED[f] with f = 1
+        fa, fb = a.get(FAC, ONE), b.get(FAC, ONE)
+        if fa != fb and ONE in (fa, fb) and out.get(FAC) not in (ONE, MIXED):
+            one, oth = (a, b) if fa == ONE else (b, a)
+            for k in set(a) & set(b):
+                if k != FAC and one[k] == RAW and oth[k] == S(out[FAC]):
+                    out[k] = oth[k]
         return out
 
-    IN, OUT = forward(cfg, {}, transfer, join, follow_exc=False)
     obs: List[Ob] = []
-    # scaling statements
-    scal = [n for n in cfg.nodes for k, v, how in node_defs(n)
-            if k in (fn_, gn) and ((how == "aug" and isinstance(n.ast, ast.AugAssign) and src(n.ast.value) == fac) or times_factor(v, k))]
-    for k in (fn_, gn):
-        mine = [n for n in scal if any(kk == k for kk, _, _ in node_defs(n))]
-        ok = len(mine) == 1 and not mine[0].loops and mine[0] in post and OUT.get(mine[0], {}).get(k) == SCALED
-        obs.append(ob("UNITS", f"{k} is scaled by the factor exactly once, after the scaler call and before the loop", mm.f,
-                      mine[0].ast if mine else mm.f.node, ok,
-                      f"{len(mine)} scaling statement(s); unit afterwards: {OUT.get(mine[0], {}).get(k) if mine else '-'}",
-                      construct=f"{k} <- {k} * {fac}"))
-    # target tests
-    tgt = ctx.repo.func("main.is_f0_target_reached")
-    chg = ctx.repo.func("main.is_f0_min_change_reached")
-    for n in cfg.nodes:
-        for c in node_calls(n):
-            d = (dotted(c.func) or "")
-            if d == "is_f0_target_reached" and c.args:
-                u = unit_of(c.args[0], IN.get(n, {}), n)
-                ok = u == RAW
-                obs.append(ob("UNITS", "target stop is tested on the unscaled value", mm.f, c, ok,
-                              f"unit({short(c.args[0])}) = {u}" + ("" if ok else ": ftarget is compared with a scaled value"),
-                              construct=f"is_f0_target_reached({short(c.args[0])}, ..) @{'loop' if mm.in_loop(c) else 'pre-loop'}"))
-            if d == "is_f0_min_change_reached" and len(c.args) >= 2:
-                u1, u2 = unit_of(c.args[0], IN.get(n, {}), n), unit_of(c.args[1], IN.get(n, {}), n)
-                ok = u1 == u2 and u1 in (RAW, SCALED)
-                obs.append(ob("UNITS", "relative-change test compares like units", mm.f, c, ok,
-                              f"units: {short(c.args[0])}={u1}, {short(c.args[1])}={u2}",
-                              construct=f"is_f0_min_change_reached({short(c.args[0])}, {short(c.args[1])}, ..)"))
-            if d.split(".")[-1] == "line_search" and len(c.args) >= 3:
-                us = [unit_of(c.args[1], IN.get(n, {}), n), unit_of(c.args[2], IN.get(n, {}), n)]
-                ok = us == [SCALED, SCALED]
-                obs.append(ob("UNITS", "line search receives the scaled value and gradient", mm.f, c, ok, f"units of (f0, g0): {us}",
-                              construct="line_search(f0, g0) units"))
-            if d == "OptimizeResult" and n in post:
-                us = [unit_of(kw(c, "fun"), IN.get(n, {}), n), unit_of(kw(c, "jac"), IN.get(n, {}), n)]
-                ok = us == [SCALED, SCALED]
-                obs.append(ob("UNITS", "results after the scaling carry scaled fun and jac", mm.f, c, ok, f"units of (fun, jac): {us}",
-                              construct=f"OptimizeResult(fun, jac) units @{'loop' if mm.in_loop(c) else 'final'}"))
+    sites: Dict[Tuple[str, str], List[Tuple[str, bool, str, ast.AST]]] = {}
+
+    def rec(inst: str, construct: str, mode: str, ok: bool, fact: str, node: ast.AST):
+        sites.setdefault((inst, construct), []).append((mode, ok, fact, node))
+
+    tgt_seen = 0
+    for mode, ck_none in (("fresh run", True), ("restart", False)):
+        MODE[:] = [ck_none]
+
+        def refine(n, lab, st, ck_none=ck_none):
+            if n.kind == "test" and lab in (True, False):
+                a = _is_ckpt_atom(n.ast)
+                if a is not None and (a == lab) != ck_none:
+                    return None
+            return st
+        IN, OUT = forward(cfg, {}, transfer, join, refine, follow_exc=False)
+        # scaling statements
+        scal = [n for n in cfg.nodes if n in IN for k, v, how in node_defs(n)
+                if k in (fn_, gn) and ((how == "aug" and isinstance(n.ast, ast.AugAssign) and src(n.ast.value) == fac) or times_factor(v, k))]
+        for k in (fn_, gn):
+            mine = [n for n in scal if any(kk == k for kk, _, _ in node_defs(n))]
+            if ck_none:
+                ok = len(mine) == 1 and not mine[0].loops and OUT.get(mine[0], {}).get(k) in (S(SC), RAW)
+                rec(f"{k} is scaled by the factor exactly once before the loop of a fresh run", f"{k} <- {k} * {fac}", mode, ok,
+                    f"{len(mine)} scaling statement(s) reachable; unit afterwards: {OUT.get(mine[0], {}).get(k) if mine else '-'}",
+                    mine[0].ast if mine else mm.f.node)
+            for m in mine:
+                uin = IN.get(m, {}).get(k, "?")
+                oku = uin == RAW
+                rec(f"what is scaled into {k} is an unscaled value", f"unit of {k} entering `{k} <- {k} * {fac}`", mode, oku,
+                    f"unit of {k} before the scaling: {uin}" + ("" if oku else
+                    ": a value read back from a checkpoint was stored after scaling by the producing run and is scaled a second time"
+                    if "checkpoint" in uin or uin == MIXED else ""), m.ast)
+        for n in cfg.nodes:
+            if n not in IN:
+                continue
+            st = IN[n]
+            for c in node_calls(n):
+                d = (dotted(c.func) or "")
+                where = "loop" if mm.in_loop(c) else "pre-loop"
+                if d == "is_f0_target_reached" and c.args:
+                    u = unit_of(c.args[0], st)
+                    tgt_seen += 1
+                    rec("target stop is tested on the unscaled value", f"is_f0_target_reached({short(c.args[0])}, ..) @{where}", mode, u == RAW,
+                        f"unit({short(c.args[0])}) = {u} with the wrapper's factor = {cur(st)}" + ("" if u == RAW else ": ftarget is compared with a scaled value"), c)
+                if d == "is_f0_min_change_reached" and len(c.args) >= 2:
+                    u1, u2 = unit_of(c.args[0], st), unit_of(c.args[1], st)
+                    rec("relative-change test compares like units", f"is_f0_min_change_reached({short(c.args[0])}, {short(c.args[1])}, ..)", mode,
+                        u1 == u2 and (u1 == RAW or u1.startswith("SCALED")), f"units: {short(c.args[0])}={u1}, {short(c.args[1])}={u2}", c)
+                if d.split(".")[-1] == "line_search" and len(c.args) >= 3:
+                    us = [unit_of(c.args[1], st), unit_of(c.args[2], st)]
+                    rec("line search receives the value and gradient scaled by the wrapper's factor", "line_search(f0, g0) units", mode,
+                        us == [scaled_now(st)] * 2, f"units of (f0, g0): {us}; wrapper's factor: {cur(st)}", c)
+                if d == "OptimizeResult":
+                    us = [unit_of(kw(c, "fun"), st) if kw(c, "fun") is not None else "?", unit_of(kw(c, "jac"), st) if kw(c, "jac") is not None else "?"]
+                    # zero-filled placeholder gradient of the "target reached at x0" exit has no unit
+                    okr = us[0] == scaled_now(st) and us[1] in (scaled_now(st), "?")
+                    rec("results carry fun and jac scaled by the wrapper's current factor", f"OptimizeResult(fun, jac) units @{where} line-rank {sorted(x.lineno for x in ast.walk(mm.f.node) if isinstance(x, ast.Call) and dotted(x.func) == 'OptimizeResult').index(c.lineno)}",
+                        mode, okr, f"units of (fun, jac): {us}; wrapper's factor: {cur(st)}", c)
+                if isinstance(c.func, ast.Name) and c.func.id == "gradient_scaler" and len(c.args) >= 2:
+                    u = unit_of(c.args[1], st)
+                    rec("the scaler receives an unscaled gradient", f"gradient_scaler(.., {short(c.args[1])}, ..)", mode, u == RAW and cur(st) == ONE,
+                        f"unit({short(c.args[1])}) = {u}; wrapper's factor before the call: {cur(st)}" + ("" if u == RAW and cur(st) == ONE else
+                        ": the factor is computed from an already scaled gradient (or replaces a factor the restored values were scaled with)"), c)
+    need(tgt_seen >= 2, "UNITS: target tests not found")
+    for (inst, construct), lst in sites.items():
+        ok = all(o for _, o, _, _ in lst)
+        bad = [(m, f_) for m, o, f_, _ in lst if not o]
+        fact = "; ".join(f"[{m}] {f_}" for m, f_ in (bad or [(m, f_) for m, _, f_, _ in lst]))
+        obs.append(ob("UNITS", inst, mm.f, lst[0][3], ok, fact, construct=construct))
     return obs
 
 
@@ -410,4 +501,69 @@ def rule_scalepos(ctx: Ctx) -> List[Ob]:
             obs.append(ob("SCALEPOS", "scaling factor is positive", f, r, ok,
                           f"sign({short(e, 70)}) = {s0}" + ("" if ok else ": the factor can be negative (e.g. when every component of the projected step has the same sign)"),
                           construct="get_gradient_projection_unit_scaling: return value"))
+    return obs
+
+
+@rule("SCALEUSE", min_instances=5)
+def rule_scaleuse(ctx: Ctx) -> List[Ob]:
+    """who-may-read the scaling factor: a scaler run equals the run on s*f exactly when s enters the solver only
+    through the values f and g (the wrapper's accessors, the one initial scaling of f0 and grad) and through the
+    un-scaling of the value compared with the target; every other use (step caps, theta, tolerances, ...) has no
+    counterpart in the explicitly scaled run, where the factor is 1"""
+    obs: List[Ob] = []
+    for q, f in ctx.repo.funcs.items():
+        if q.startswith("scalar_function.ScalarFunction"):
+            continue     # SF4 governs the accessors
+        parents = {}
+        for p_ in ast.walk(f.node):
+            for ch in ast.iter_child_nodes(p_):
+                parents[ch] = p_
+
+        def classify(e):
+            chain = [e]
+            while chain[-1] in parents and not isinstance(chain[-1], ast.stmt):
+                chain.append(parents[chain[-1]])
+            st = chain[-1]
+            par = chain[1] if len(chain) > 1 else None
+            if any(isinstance(c, (ast.JoinedStr, ast.FormattedValue)) for c in chain) or \
+                    any(isinstance(c, ast.Call) and (dotted(c.func) or "").split(".")[0] in ("logger", "logging", "print") for c in chain):
+                return st, "display"
+            if isinstance(st, ast.AugAssign) and isinstance(st.op, ast.Mult) and st.value is e and isinstance(st.target, ast.Name):
+                return st, f"initial scaling of {st.target.id}"
+            if isinstance(st, ast.Assign) and isinstance(st.value, ast.BinOp) and isinstance(st.value.op, ast.Mult) and par is st.value \
+                    and len(st.targets) == 1 and isinstance(st.targets[0], ast.Name) and \
+                    src(st.value.left if st.value.right is e else st.value.right) == st.targets[0].id:
+                return st, f"initial scaling of {st.targets[0].id}"
+            if isinstance(par, ast.BinOp) and isinstance(par.op, ast.Div) and par.right is e and len(chain) > 2 and \
+                    isinstance(chain[2], ast.Call) and (dotted(chain[2].func) or "").split(".")[-1] == "is_f0_target_reached" and \
+                    chain[2].args and chain[2].args[0] is par:
+                return st, "un-scaling of the value compared with the target"
+            if isinstance(par, ast.keyword) and par.arg == "scaling_factor" and par.value is e and len(chain) > 2 and \
+                    isinstance(chain[2], ast.Call) and (dotted(chain[2].func) or "") == "OptimizeResult":
+                return st, "recorded in a result, next to the values it scaled"
+            if isinstance(st, (ast.Assign, ast.AnnAssign)) and st.value is e:
+                tg = st.targets[0] if isinstance(st, ast.Assign) and len(st.targets) == 1 else getattr(st, "target", None)
+                if isinstance(tg, ast.Name):
+                    return st, f"alias:{tg.id}"
+            return st, None
+
+        work = [e for e in walk_no_nested(f.node) if isinstance(e, ast.Attribute) and e.attr == "scaling_factor" and not isinstance(e.ctx, ast.Store)]
+        seen_alias: Set[str] = set()
+        while work:
+            e = work.pop(0)
+            st, role = classify(e)
+            if role and role.startswith("alias:"):
+                nm = role[6:]
+                if nm not in seen_alias:
+                    seen_alias.add(nm)
+                    ndefs = sum(1 for x in walk_no_nested(f.node) if isinstance(x, ast.Name) and x.id == nm and isinstance(x.ctx, ast.Store))
+                    if ndefs == 1:
+                        work += [x for x in walk_no_nested(f.node) if isinstance(x, ast.Name) and x.id == nm and isinstance(x.ctx, ast.Load)]
+                        role = f"local name for the factor ({nm}); its uses are classified like the factor"
+                    else:
+                        role = None
+            ok = role is not None
+            obs.append(ob("SCALEUSE", "the scaling factor is used only to scale f, g once and to un-scale the target test", f, e, ok,
+                          role if ok else f"`{short(st, 90)}` uses the factor for something else: the run on the explicitly scaled objective (factor 1) has no counterpart",
+                          construct=f"{f.qual}: {short(st, 70)}"))
     return obs
